@@ -31,6 +31,8 @@ RULE = ('(a) v4 data sets with dyadic timing attributes: capture start (incl. ti
         '(i) whole vs preselected data set on stores drawn as in C06 (independent chunkings, deleted chunk files, flags from a '
         'flag stream longer / shorter than L0): timestamps, freqs, vis, weights, raw and boolean flags vs select(), vs the cut of '
         'the whole arrays and vs the chunk-store model; (j) explicit (irregular) timestamps handed to the data source; '
+        '(l) RDBs with a complete, absent or partially stripped CBF attribute chain (each link missing / empty in turn), mostly '
+        'before a fix date: cbf_dump_period and timestamps; '
         '(k) SpectralWindow constructor variants (positional / keyword / mixed, defaults), product / band / sideband through '
         'random histories of sub-ranges and re-channelisations, laws on exact numbers, names of the v4 window. '
         'A case is non-trivial when it has >= 2 dumps/channels; distinct by its full parameter tuple.')
@@ -707,6 +709,13 @@ def run_extension(ctx):
     for sub_band, sub_product in [('l', 'c856M4k'), ('s', 'bc856M1k'), ('u', ''), ('x', 'c856M32k'), ('q', 'c856M4k')]:
         ext.check_v4_names(ctx, me, t, sub_band, sub_product)
     lap('windows')
+    # where the CBF dump period comes from: complete / lite / partially stripped attribute chains, mostly before a fix date
+    for drop in ext.CBF_DROPS * ctx.scale(2, 12):
+        t = gen_timing(rng)
+        if rng.random() < 0.7:
+            t['sync'] = fix_date_of(t) - rng.choice([0.25, 1.0, 3600.0, 86400.0]) - t['off'] - t['first']
+        ext.check_cbf_chain(ctx, me, t, drop)
+    lap('cbf_chain')
 
 
 # ---------------------------------------------------------------------------- driver
@@ -771,6 +780,8 @@ def replay(ctx, doc):
         ext.check_indices(ctx)
     elif case.get('other_format'):
         ext.check_other_format(ctx)
+    elif case.get('cbf_chain'):
+        ext.check_cbf_chain(ctx, me, case['timing'], None if case['drop'] is None else tuple(case['drop']))
     elif 'paths' in case:
         x = build(gen_timing(ctx.rng), 4, 4, ctx.seed)
         try:
